@@ -195,11 +195,14 @@ fn cfg_for(pid: &str, rng: &mut Rng) -> String {
     let o = |x: Option<f64>| x.map(fhex).unwrap_or_else(|| "-".to_string());
     let mut steps = *rng.pick(&[0u64, 1, 2, 3, 7, 10, 24, 50, 100, 200, 333, 600]);
     let mut inner = *rng.pick(&[0u64, 1, 2, 3, 5, 7, 10, 25, 50, 100, 1000]);
-    let mut kt_start = match rng.below(5) {
-        0 | 1 => 0.0,
-        2 => 0.1,
-        3 => rng.logmag(-4.0, 1.0),
-        _ => *rng.pick(&[1.0, 1e-3, 0.5]),
+    let mut kt_start = match rng.below(11) {
+        10 => f64::INFINITY, // `--kt-start inf` is a legal setting
+        x => match x % 5 {
+            0 | 1 => 0.0,
+            2 => 0.1,
+            3 => rng.logmag(-4.0, 1.0),
+            _ => *rng.pick(&[1.0, 1e-3, 0.5]),
+        },
     };
     let mut kt_finish = Some(*rng.pick(&[0.001, 0.0, 1e-3, 1.0, 0.05, 1e-6]));
     let mut kt_ratio = match rng.below(6) {
@@ -241,7 +244,8 @@ fn cfg_for(pid: &str, rng: &mut Rng) -> String {
         "C19" => {
             steps = *rng.pick(&[30u64, 100, 200, 400, 600]);
             inner = *rng.pick(&[3u64, 5, 10, 20, 50]);
-            max_step = *rng.pick(&[0.01, 0.1, 0.5, 1.0, 0.001]);
+            // every non-negative step size is a legal setting, the very small ones and zero included
+            max_step = *rng.pick(&[0.01, 0.1, 0.5, 1.0, 0.001, 1e-7, 0.0, 1e-9]);
         }
         "C20" => {
             if rng.chance(1, 2) {
@@ -253,6 +257,33 @@ fn cfg_for(pid: &str, rng: &mut Rng) -> String {
         _ => {}
     }
     format!("{} {} {} {} {} {} {} {}", steps, inner, fhex(kt_start), o(kt_finish), o(kt_ratio), fhex(max_step), seed, o(conv))
+}
+
+/// temperatures far below 1 (down to ~1e-18, still ordinary positive doubles) with score differences
+/// of the same order: a positive temperature, however small, is not zero
+fn tiny_kt_case(rng: &mut Rng) -> (String, String) {
+    let kt = *rng.pick(&[2f64.powi(-50), 2f64.powi(-56), 1e-15, 1e-17, 3e-18]);
+    let ratio = *rng.pick(&[0.0, 0.5, 0.0, 0.25]);
+    let inner = *rng.pick(&[5u64, 10, 20]);
+    let loops = 2 + rng.below(6);
+    let cfg = format!("{} {} {} - {} {} {} -", inner * loops, inner, fhex(kt), fhex(ratio), fhex(0.1), rng.below(1000));
+    let nc = 2 + rng.usize(3);
+    let mut s = format!("scripted {}", nc);
+    for _ in 0..nc {
+        s.push_str(&format!(" {}", fhex(rng.range(-0.4, 0.4))));
+    }
+    s.push_str(&format!(" {}", nc));
+    for h in 0..nc {
+        s.push_str(&format!(" {} {} {}", h, fhex(-0.5), fhex(0.5)));
+    }
+    let n = 10 + rng.usize(40);
+    s.push_str(&format!(" list {}", n));
+    let mut cur = 0.0;
+    for _ in 0..n {
+        cur += match rng.below(5) { 0 => 0.0, 1 => kt * rng.unit(), _ => -kt * rng.unit() };
+        s.push_str(&format!(" {}", fhex(cur)));
+    }
+    (cfg, s)
 }
 
 /// scripted states biased per property
@@ -311,6 +342,13 @@ fn cli_tail(rng: &mut Rng) -> String {
 
 fn c09(s: &mut Search, rng: &mut Rng) {
     let mut n = 0u64;
+    // exact ties between DIFFERENT replicas (every proposal clamped to a limit by an enormous step):
+    // which of the equally good structures is written must not depend on how the pool splits the range
+    {
+        let req = format!("oracle c09_threads 16 10 10 - - - {} - p1 LJ circle", fhex(1e6));
+        s.class("cli-thread-sweep-ties");
+        s.run("Determinism.threads", &req, "c09_threads", "CLI output depends on the number of worker threads / the run", true);
+    }
     while s.time_left() && n < 100_000 {
         n += 1;
         if n % 3 == 0 {
@@ -360,6 +398,27 @@ fn c10(s: &mut Search, rng: &mut Rng) {
     n = 0;
     while s.time_left() && n < 100_000 {
         n += 1;
+        if n % 4 == 0 {
+            // every option the binary accepts is in scope: an initial configuration of another group
+            // (same copy count, same shape) must not change what the written structure is labelled as
+            let tail = cli_tail(rng);
+            let t: Vec<&str> = tail.split(' ').collect();
+            if t.len() > 10 && t[0] != "0" {
+                let other = match t[8] {
+                    "p2" => *rng.pick(&["p1m1", "p1g1"]),
+                    "p1m1" => *rng.pick(&["p2", "p1g1"]),
+                    "p1g1" => *rng.pick(&["p2", "p1m1"]),
+                    "p2mm" => *rng.pick(&["p2mg", "p2gg"]),
+                    "p2mg" => *rng.pick(&["p2mm", "p2gg"]),
+                    "p2gg" => *rng.pick(&["p2mm", "p2mg"]),
+                    _ => "p1",
+                };
+                let req = format!("oracle c10_startconfig {} {}", other, tail);
+                s.class("cli-start-config");
+                s.run("Cli.label", &req, "c10_startconfig", "the written structure is mislabelled when an initial configuration is given", true);
+                continue;
+            }
+        }
         let req = format!("oracle cli_check C10 {} {}", 1 + rng.below(3), cli_tail(rng));
         s.class("cli");
         s.run("Cli.bestReplica", &req, "c10_cli", "the written structure is not the best replica / is mislabelled", true);
@@ -381,6 +440,20 @@ fn c11(s: &mut Search, rng: &mut Rng) {
                 let req = format!("oracle c11_svg {}", crate::gen::gen_state_desc(rng, dense));
                 s.class("svg");
                 s.run("Svg.semantics", &req, "c11_svg", "the SVG does not show the structure", true);
+            }
+            10 => {
+                // all finite parameter values: very large / very small / whole-number parameters
+                let mut t: Vec<String> = crate::gen::gen_state_desc(rng, false).split(' ').map(|x| x.to_string()).collect();
+                // layout: kind shape… group L R A nsites x y angle  (the last seven tokens are L R A 1 x y angle)
+                let k = t.len();
+                let big = match rng.below(5) { 0 => 1e19, 1 => 9.3e18, 2 => 2f64.powi(64), 3 => 1e300, _ => 3e15 };
+                t[k - 7] = fhex(big);
+                if rng.chance(1, 2) { t[k - 6] = fhex(1.0); }
+                if rng.chance(1, 2) { t[k - 3] = fhex(0.0); t[k - 2] = fhex(-0.0); }
+                if rng.chance(1, 3) { t[k - 1] = fhex(*rng.pick(&[0.0, 1.0, 2.0, 6.0])); }
+                let req = format!("oracle c11_roundtrip {}", t.join(" "));
+                s.class("json-extreme-values");
+                s.run("Json.roundTrip", &req, "c11_roundtrip", "JSON round trip changes the state", true);
             }
             _ => {
                 let dense = rng.chance(1, 2);
@@ -471,6 +544,8 @@ fn opt_search(pid: &str, s: &mut Search, rng: &mut Rng) {
                 c = t.join(" ");
             }
             (c, format!("crystal {}", crate::gen::gen_state_desc(rng, true)))
+        } else if (pid == "C07" || pid == "C18") && rng.chance(1, 8) {
+            tiny_kt_case(rng)
         } else {
             (cfg_for(pid, rng), scripted_for(pid, rng))
         };
@@ -769,6 +844,20 @@ fn c02(s: &mut Search, rng: &mut Rng) {
                 let req = "oracle c02_area circle".to_string();
                 s.class("circle");
                 s.run("Area.discUnion", &req, "c02_circle", "circle area", false);
+            }
+            7 if rng.chance(1, 2) => {
+                // a state built for one shape whose shape is then replaced (edited JSON / public field)
+                let st = gen_hard_state_adversarial(rng);
+                let line = st.starts_with("hard poly") || st.starts_with("hard radial");
+                let other = if line {
+                    if rng.chance(1, 2) { format!("poly {}", 3 + rng.below(9)) } else {
+                        let k = 3 + rng.usize(5);
+                        format!("radial {} {}", k, (0..k).map(|_| fhex(rng.range(0.3, 0.9))).collect::<Vec<_>>().join(" "))
+                    }
+                } else if rng.chance(1, 2) { "circle".to_string() } else { format!("trimer {} {} {}", fhex(rng.range(0.2, 0.6)), fhex(180.0), fhex(rng.range(1.7, 2.2))) };
+                let req = format!("oracle c02_swap {} {}", st, other);
+                s.class("state-shape-replaced");
+                s.run("Score.fraction", &req, "c02_swap", "score of a state whose shape was replaced is not its packing fraction", true);
             }
             7 | 8 => {
                 let st = gen_hard_state_adversarial(rng);
